@@ -671,6 +671,20 @@ class Interp:
 
     # ---- modules
     def ast_of(self, path):
+        cache = self.__dict__.setdefault('_ast_cache', {})
+        if path not in cache:
+            cache[path] = self._ast_of(path)
+        return cache[path]
+
+    def reset_modules(self):
+        """evaluate every loaded module again from its (cached) syntax tree: module-level state of the JavaScript side - a memo object, a
+        flag - is back to that of a fresh `require`; called before every symbolic path"""
+        names = list(self.__dict__.get('_loaded_names', []))
+        self.modules = {}
+        for n in names:
+            self.load(n)
+
+    def _ast_of(self, path):
         out = subprocess.run(['node', '--expose-internals', os.path.join(HERE, 'estree.js'), path], capture_output=True, text=True, timeout=120)
         if out.returncode != 0:
             raise RuntimeError('cannot parse %s: %s' % (path, out.stderr[-400:]))
@@ -680,6 +694,9 @@ class Interp:
         path = os.path.normpath(os.path.join(self.src_dir, name))
         if path in self.modules:
             return self.modules[path]['module'].props['exports']
+        ln = self.__dict__.setdefault('_loaded_names', [])
+        if name not in ln and not os.path.isabs(name):
+            ln.append(name)
         ast = self.ast_of(path)
         module = JSObject({'exports': JSObject()})
         self.modules[path] = {'module': module, 'ast': ast}
